@@ -27,6 +27,9 @@ type c04Exec struct {
 	// list in the context, in place
 	EditList bool   `json:"edit_list_in_place,omitempty"`
 	SetGlob  string `json:"set_global,omitempty"`
+	// OptsOn: before this execution the caller switches TrimBlocks and LStripBlocks on, on the
+	// template object (they stay on): what earlier executions saw of the options must not stick
+	OptsOn bool `json:"options_switched_on,omitempty"`
 }
 
 type c04Spec struct {
@@ -92,6 +95,9 @@ func c04Gen(tp *Tapes) *c04Spec {
 		}
 		if g.Draw(6) == 5 {
 			e.EditList = true
+		}
+		if g.Draw(5) == 4 && i > 0 {
+			e.OptsOn = true
 		}
 		if f.Draw(3) == 2 {
 			switch f.Draw(4) {
@@ -225,6 +231,7 @@ func (c04Checker) Run(tp *Tapes, opt RunOpt) *Outcome {
 		// editList: the caller overwrites elements of a long list in place (same slice, same
 		// length, the context stays valid) - or puts them back
 		edited := map[int]bool{}
+		optsOn := false
 		editList := func(c pongo2.Context, on bool, variant int) {
 			if l, ok := c["longs"].([]string); ok {
 				for _, i := range []int{7, 14, 21} {
@@ -249,6 +256,11 @@ func (c04Checker) Run(tp *Tapes, opt RunOpt) *Outcome {
 				curGlob = e.SetGlob
 				sys.set.Globals["glob"] = curGlob
 			}
+			if e.OptsOn {
+				optsOn = true
+				sys.tpl.Options.TrimBlocks, sys.tpl.Options.LStripBlocks = true, true
+				out.probe("options_switched_on_between_executions")
+			}
 			got := sys.exec(sp, i, e, sys.pool[e.Ctx])
 			out.dig(got.String())
 			out.Execs++
@@ -261,6 +273,9 @@ func (c04Checker) Run(tp *Tapes, opt RunOpt) *Outcome {
 			if curGlob != "" {
 				ref.set.Globals["glob"] = curGlob
 			}
+			if optsOn {
+				ref.tpl.Options.TrimBlocks, ref.tpl.Options.LStripBlocks = true, true
+			}
 			rctx := ref.w.BuildCtx(sp.Pool[e.Ctx])
 			if renamed[e.Ctx] {
 				rename(rctx, true, sp.Pool[e.Ctx].Variant)
@@ -271,7 +286,7 @@ func (c04Checker) Run(tp *Tapes, opt RunOpt) *Outcome {
 			want := ref.exec(sp, i, e, rctx)
 			ref.w.Fired = map[string]int{}
 			hh.u64(uint64(e.Ctx)<<8 | uint64(e.Entry))
-			hh.str(fmt.Sprintf("%v|%s|%v|%v", e.NilCtx, e.SetGlob, e.Rename, e.EditList))
+			hh.str(fmt.Sprintf("%v|%s|%v|%v|%v", e.NilCtx, e.SetGlob, e.Rename, e.EditList, e.OptsOn))
 			for _, f := range e.Plan {
 				hh.u64(uint64(f.Site)<<40 | uint64(f.Fault)<<32 | uint64(f.Occ))
 			}
